@@ -223,6 +223,8 @@ Section C17.
                        match r_state o3 with
                        | Receiving =>
                          let (o4, c4) := push_from_cache E o3 c3 in
+                         match r_state o4 with
+                         | Receiving =>
                          match r_oti o4 with
                          | None =>
                            if r_max o4 <=? r_cache_size o4 then error o4 false c4
@@ -235,6 +237,8 @@ Section C17.
                            | (RErr o5, c5) => error o5 false c5
                            end
                          end
+                         | _ => (o4, c4)
+                         end
                        | _ => (o3, c3)
                        end))).
     2: { destruct (r_oti o); destruct (a_oti p) as [[ot l]|]; cbv zeta beta iota; apply G0; split; cbn; auto. }
@@ -246,6 +250,7 @@ Section C17.
     pose proof (ckc_push_from_cache o3 c3) as K4. destruct (push_from_cache E o3 c3) as [o4 c4]. cbn [fst] in K4.
     assert (K14 : cache_keep_or_clear o o4) by (eapply ckc_trans; eassumption).
     pose proof (cache_ok_of_ckc M o o4 OK K14) as OK4.
+    destruct (r_state o4); cbn [fst]; try exact OK4.
     destruct (r_oti o4).
     - pose proof (ckc_push_to_block p o4 c4) as K5.
       destruct (push_to_block E p o4 c4) as [[o5|o5] c5]; cbn [fst res_obj] in *.
